@@ -381,7 +381,7 @@ func (d *deps) nodeDeps(n ast.Node, scopes depScopes) []*ast.Identifier {
 	case *ast.Interface:
 		return nil
 	case *ast.Label:
-		return nil
+		return d.nodeDeps(n.Statement, scopes)
 	case *ast.MapType:
 		deps := d.nodeDeps(n.KeyType, scopes)
 		return append(deps, d.nodeDeps(n.ValueType, scopes)...)
